@@ -260,20 +260,29 @@ def target_state(aw, db, t, pl):
     return a.value, 0, 0
 
 
-def run_case(aw, st, found, pl, perms, state, bearer, record_case=None):
-    """All access paths against one (placement, permissions, link state, bearer)."""
+def run_case(aw, st, found, pl, perms, state, bearer, record_case=None, how='ctor'):
+    """All access paths against one (placement, permissions, link state, bearer).
+    how: 'ctor' = the target is constructed with `perms`; 'tighten' / 'loosen' = it is constructed world-accessible /
+    fully restricted and the application assigns `perms` to its `permissions` attribute afterwards (what a server that
+    locks or unlocks a characteristic at run time does): the permissions in force are the current ones."""
     enc, auth = STATES[state]
-    spec = placement_spec(pl, perms)
+    spec = placement_spec(pl, perms if how == 'ctor' else RWP if how == 'tighten' else 0xFC)
     db = aw.set_database(spec)
     if pl == 'value_dyn':
         db.cells[0].data = db.cells[0].initial = SECRET7
     aw.set_security(enc, auth)
     t = find_target(db, pl)
     h = t['handle']
+    if how != 'ctor':
+        from bumble import att as _att
+
+        aw.server.attributes[h - 1].permissions = _att.Attribute.Permissions(perms)
+        t['perms'] = perms
+        aw.snapshot()  # restore() goes back to the assigned permissions
     secret = secret_of(pl)
     fr, fw = failed_read(perms, enc, auth), failed_write(perms, enc, auth)
-    base = {'placement': pl, 'perms': perms, 'state': state, 'bearer': bearer}
-    where = f'[{pl} perms=0x{perms:02X} link={state} {bearer}]'
+    base = {'placement': pl, 'perms': perms, 'state': state, 'bearer': bearer, 'how': how}
+    where = f'[{pl} perms=0x{perms:02X}{"" if how == "ctor" else " assigned at run time (" + how + ")"} link={state} {bearer}]'
     events = {'read': 0, 'write': 0}
     attr = aw.server.attributes[h - 1]
     attr.on('read', lambda *a: events.__setitem__('read', events['read'] + 1))
@@ -358,6 +367,11 @@ def w_lattice(item):
                 for bearer in bearers:
                     run_case(aw, st, found, pl, perms, state, bearer)
                     st.count('configurations')
+                    # permissions assigned after construction: the 32-set lattice on three placements
+                    if pl in ('value', 'descriptor', 'middle') and perms in RUNTIME_PERMS:
+                        for how in ('tighten', 'loosen'):
+                            run_case(aw, st, found, pl, perms, state, bearer, how=how)
+                            st.count('configurations_runtime_permissions')
     found.flush(st)
     if items:
         pl, pp, ss, bb = items[0]
@@ -448,6 +462,9 @@ def perm_sets(quick_small):
     return out
 
 
+RUNTIME_PERMS = set(perm_sets(True))
+
+
 def aggregate(st: core.Stats):
     """One finding per failing class.  First the violations that differ only in access
     path / bearer are merged (sorted 'paths' and 'bearers' lists in the signature); then
@@ -515,6 +532,12 @@ def run(ctx: core.Context) -> int:
         aggregate(st)
         ctx.log(f'lattice: configurations={st.counters.get("configurations")} requests={st.evaluations} outcome classes={len(st.distinct)}')
 
+    if want('concurrent'):
+        st = ctx.sub('concurrent')
+        for r in core.pmap(w_concurrent, core.split(concurrent_cases(), ctx.jobs), ctx.jobs):
+            st.merge(r)
+        ctx.log('concurrent:', st.summary())
+
     if want('builtin'):
         st = ctx.sub('builtin')
         for r in core.pmap(w_builtin, [([s], bearers) for s in states], ctx.jobs):
@@ -529,7 +552,7 @@ def run(ctx: core.Context) -> int:
             + ('all 256 flag combinations for the characteristic-value and descriptor placements, the 32-set lattice (R/W x {none, each requirement bit, all six}) for the other 7 placements' if quick else 'all 256 flag combinations for all 9 placements')
             + f'; x link states {states} x bearers {bearers} x every read form (read, read blob x4 offsets, read by type x5 ranges/forms, read multiple and variable x5 positions, read by group type x4, find by type value x3) '
             'and write form (write request x3, write command x2, signed write, prepare+execute). distinct = (path, form, #unmet requirements, outcome, error code). '
-            'builtin: every constructor-made attribute (service/include/characteristic declarations, value, user descriptor, CCCD) x write request/command x read.'
+            'concurrent: two links with different security (encrypted+authenticated / plain) asking for one attribute with an asynchronous application callback held open, both orders x every pair of access paths x each requirement bit; run-time assignment of permissions (tighten / loosen) on three placements. builtin: every constructor-made attribute (service/include/characteristic declarations, value, user descriptor, CCCD) x write request/command x read.'
         ),
         assumptions=[
             'link security is the pair (Connection.encryption != 0, Connection.authenticated) set by the harness on the real connection; key size is not modelled',
@@ -555,11 +578,21 @@ def replay_one(check, c):
             finally:
                 _AW = None
             return [v.message for v in r.violations if v.check == check and v.case['handle'] == c['handle'] and v.case['op'] == c['op']] or [v.message for v in r.violations if v.check == check]
-        run_case(aw, st, found, c['placement'], c['perms'], c['state'], c['bearer'])
+        run_case(aw, st, found, c['placement'], c['perms'], c['state'], c['bearer'], how=c.get('how', 'ctor'))
     return [msg for (chk, sig, msg, case) in found.items.values() if chk == check and case['path'] == c['path']]
 
 
+def replay_concurrent(check, c):
+    tw = TwoLinkWorld()
+    try:
+        return [m for ck, _, m in run_concurrent(tw, tuple(c['case'])) if ck == check]
+    finally:
+        tw.close()
+
+
 def replay(v: core.Violation):
+    if v.case.get('mode') == 'concurrent':
+        return replay_concurrent(v.check, v.case)
     c = v.case
     if c.get('mode') == 'multi':
         out = []
@@ -567,3 +600,162 @@ def replay(v: core.Violation):
             out += replay_one(v.check, sub)
         return out
     return replay_one(v.check, c)
+
+
+# ---------------------------------------------------------------------------
+# concurrent: TWO links with different security ask for the same attribute at the same time.  The server device has an
+# encrypted+authenticated link (to device 0) and a plain one (to device 2).  The target's value is produced by an
+# asynchronous application callback that the harness holds open, so a request of one link is still being served when the
+# other link's request arrives; both orders, every pair of access paths, every single requirement bit.
+# ---------------------------------------------------------------------------
+class TwoLinkWorld:
+    def __init__(self):
+        from ..harness.devices import World
+
+        self.w = World(3)
+        self.w.__enter__()
+        w = self.w
+        w.power_on()
+        self.dev = w.devices[1]
+        self.server = self.dev.gatt_server
+        _, self.s_auth = w.connect_le(0, 1)
+        _, self.s_plain = w.connect_le(2, 1)
+        self.s_auth.encryption = 1
+        self.s_auth.authenticated = True
+        self.sent = {self.s_auth.handle: [], self.s_plain.handle: []}
+        real = self.dev.send_l2cap_pdu
+
+        def send_l2cap_pdu(connection_handle, cid, pdu):
+            if cid == A.ATT_CID and connection_handle in self.sent:
+                self.sent[connection_handle].append(bytes(pdu))
+                return
+            real(connection_handle, cid, pdu)
+
+        self.dev.send_l2cap_pdu = send_l2cap_pdu
+
+    def close(self):
+        self.w.__exit__(None, None, None)
+
+    def inject(self, conn, pdu):
+        try:
+            self.dev.l2cap_channel_manager.on_pdu(conn, A.ATT_CID, pdu)
+        except Exception:
+            pass
+        self.w.loop.run_quiescent()
+
+
+def concurrent_cases():
+    forms = ['read', 'read_blob', 'read_by_type', 'read_multiple', 'read_by_group_skip']
+    out = []
+    for perms_bit in (R_ENC, R_AUTHN):
+        for first in ('auth', 'plain'):
+            for f1 in ('read', 'read_blob', 'read_by_type', 'read_multiple'):
+                for f2 in ('read', 'read_blob', 'read_by_type', 'read_multiple'):
+                    out.append(('read', perms_bit, first, f1, f2))
+    for perms_bit in (W_ENC, W_AUTHN):
+        for first in ('auth', 'plain'):
+            for f1 in ('write_request', 'write_command'):
+                for f2 in ('write_request', 'write_command'):
+                    out.append(('write', perms_bit, first, f1, f2))
+    return out
+
+
+def run_concurrent(tw: TwoLinkWorld, case):
+    """-> [(check, sig, msg)]"""
+    import asyncio
+
+    from bumble import att, gatt
+
+    kind, bit, first, f1, f2 = case
+    loop = tw.w.loop
+    gates = []
+    state = {'value': bytes(SECRET7), 'reads': 0, 'writes': 0}
+
+    async def rd(connection):
+        state['reads'] += 1
+        g = loop.create_future()
+        gates.append(g)
+        await g
+        return state['value']
+
+    async def wr(connection, value):
+        g = loop.create_future()
+        gates.append(g)
+        await g
+        state['writes'] += 1
+        state['value'] = bytes(value)
+
+    server = tw.server
+    server.attributes = []
+    server.services = []
+    server.attributes_by_handle = {}
+    server.subscribers = {}
+    ch = gatt.Characteristic('A001', gatt.Characteristic.Properties(P_R | P_W | P_WNR), att.Attribute.Permissions(RWP | bit), gatt.CharacteristicValue(read=rd, write=wr))
+    pub = gatt.Characteristic('A0F0', gatt.Characteristic.Properties(P_R), att.Attribute.Permissions(RWP), bytes(PUB[0]))
+    server.add_service(gatt.Service('A000', [ch, pub]))
+    h = ch.handle
+    for v in tw.sent.values():
+        del v[:]
+
+    def pdu_of(form):
+        if form == 'read':
+            return A.req_read(h)
+        if form == 'read_blob':
+            return A.req_read_blob(h, 1)
+        if form == 'read_by_type':
+            return A.req_read_by_type(h, h, A.uuid_bytes('A001'))
+        if form == 'read_multiple':
+            return A.req_read_multiple([h, pub.handle])
+        if form == 'write_request':
+            return A.req_write(h, b'\x0b\xad\xf0\x0d')
+        if form == 'write_command':
+            return A.req_write(h, b'\x0b\xad\xf0\x0d', op=0x52)
+        raise ValueError(form)
+
+    conns = {'auth': tw.s_auth, 'plain': tw.s_plain}
+    second = 'plain' if first == 'auth' else 'auth'
+    tw.inject(conns[first], pdu_of(f1 if first == 'auth' else f2))
+    tw.inject(conns[second], pdu_of(f2 if first == 'auth' else f1))
+    for _ in range(6):  # release every application callback that was held, including ones started meanwhile
+        for g in list(gates):
+            if not g.done():
+                g.set_result(None)
+        loop.run_quiescent()
+    loop.collect_exceptions()
+    out = []
+    plain_form = f2
+    rep = tw.sent[tw.s_plain.handle]
+    where = f'[concurrent {kind}, requirement bit 0x{bit:02X}, {first} link first: authorised link {f1}, plain link {plain_form}]'
+    sig = {'kind': kind, 'path': plain_form, 'lacking': 'encryption' if bit in (R_ENC, W_ENC) else 'authentication', 'order': first + '_first'}
+    if kind == 'read':
+        if any(contains_secret(r, SECRET7) for r in rep):
+            out.append(('concurrent_disclosed', sig, f'{where}: the plain link was answered {[r.hex() for r in rep]} (contains the secret)'))
+        elif len(rep) != 1 or A.error_rsp_fields(rep[0]) is None:
+            out.append(('concurrent_refusal_not_an_error', sig, f'{where}: the plain link was answered {[r.hex() for r in rep]} instead of one Error Response'))
+        arep = tw.sent[tw.s_auth.handle]
+        # (Read Blob of a short value is legitimately answered 'Attribute Not Long')
+        if f1 != 'read_blob' and not any(contains_secret(r, SECRET7) for r in arep):
+            out.append(('concurrent_authorised_not_served', dict(sig, path=f1), f'{where}: the authorised link was answered {[r.hex() for r in arep]} (its value is missing)'))
+    else:
+        # exactly the authorised link's write may take effect
+        if state['writes'] != 1:
+            out.append(('concurrent_modified', sig, f'{where}: the application write callback ran {state["writes"]} time(s), only the authorised link may write (plain link answered {[r.hex() for r in rep]})'))
+        if plain_form == 'write_request' and (len(rep) != 1 or A.error_rsp_fields(rep[0]) is None):
+            out.append(('concurrent_refusal_not_an_error', sig, f'{where}: the plain link was answered {[r.hex() for r in rep]} instead of one Error Response'))
+    return out
+
+
+def w_concurrent(cases):
+    st = core.Stats('concurrent')
+    tw = TwoLinkWorld()
+    try:
+        for case in cases:
+            res = run_concurrent(tw, case)
+            st.case(case, None)
+            for check, sig, msg in res:
+                st.violation(check, sig, msg, {'mode': 'concurrent', 'case': list(case)})
+        if cases:
+            st.samples.append({'case': list(cases[0])})
+    finally:
+        tw.close()
+    return st
